@@ -206,6 +206,16 @@ let run (line : string) : unit =
           if !bad = "-" && after <> before then bad := "query";
           sess.game <- Some g;
           Printf.printf "pp moves=%d bad=%s\n" (List.length moves) !bad)
+  | "imp" ->
+      with_game cmd (fun g ->
+          let text = fen g in
+          let us = String.map (fun c -> if c = ' ' then '_' else c) (string_of_text text) in
+          match import text with
+          | Ok g2 ->
+              let (c, g3) = get_moves_st g2 true in
+              Printf.printf "imp ok %s checked=%s\n" (obs g3) (String.concat "," (List.map uci_s c))
+          | Err _ -> Printf.printf "imp err text=%s\n" us
+          | Panic _ -> Printf.printf "imp panic text=%s\n" us)
   | "parse" ->
       with_game cmd (fun g ->
           match from_uci (scalars_of_string rest) g with
@@ -249,7 +259,9 @@ let run (line : string) : unit =
         let ten = z_of_int 10 in
         let acc = ref Z0 in
         String.iter (fun c -> acc := Z.add (Z.mul !acc ten) (z_of_int (Char.code c - 48))) s;
-        Some !acc in
+        (* str::parse::<u64> fails on a value above u64::MAX: the engine then treats the parameter as absent *)
+        let two64 = Z.mul (z_of_int 4294967296) (z_of_int 4294967296) in
+        if String.length s > 20 || Z.compare !acc two64 <> Lt then None else Some !acc in
       (match toks with
        | [wt; bt; wi; bi; side; mt; inf] ->
            let r = go_timer (big wt) (big bt) (big wi) (big bi) (side = "w") (big mt) (inf = "1") in
@@ -274,6 +286,30 @@ let run (line : string) : unit =
                  (int_of_z st1.s_polls)
            | (Aborted _, _) -> print_string "root aborted\n"
            | (OutOfFuel, _) -> print_string "!! out of fuel\n"))
+  | "win" ->
+      with_game cmd (fun g ->
+          let toks = List.filter (fun x -> x <> "") (String.split_on_char ' ' rest) in
+          let kind = (match toks with k :: _ -> k | [] -> "q") in
+          let num k d = (try int_of_string (List.nth toks k) with _ -> d) in
+          let rem = num 1 0 and alpha = num 2 (-32767) and beta = num 3 32767 in
+          let one = z_of_int 1 in
+          let r =
+            match kind with
+            | "q" -> quiescence qFUEL g (z_of_int alpha) (z_of_int beta) one
+            | "d" -> depth1 g (z_of_int alpha) (z_of_int beta) one
+            | _ ->
+                (match node (nat_of_int rem) g (fresh_state tempty (z_of_int (-1)) true) one (z_of_int alpha) (z_of_int beta) with
+                 | (Done v, _) -> Some v
+                 | _ -> None) in
+          match r with
+          | Some v -> Printf.printf "win r=%d\n" (int_of_z v)
+          | None -> print_string "win aborted\n")
+  | "refn" ->
+      (* refn <remaining>: exhaustive reference value of this node (real depth 1) *)
+      with_game cmd (fun g ->
+          let rem = max 0 (match ints_of rest with d :: _ -> d | [] -> 0) in
+          let (v, blocked) = chess_nref (nat_of_int 200) (nat_of_int rem) g (z_of_int 1) in
+          Printf.printf "refn v=%d blocked=%d\n" (int_of_z v) (if blocked then 1 else 0))
   | "ref" ->
       (* ref <depth>: exhaustive reference value of the root (Spec/Negamax.v over the model's game functions) *)
       with_game cmd (fun g ->
